@@ -147,6 +147,12 @@ func c16Shapes() []*c16Case {
 		cs.Rules = []gram.Rule{{L: "S", R: []string{"S", "TA"}, Action: act}, {L: "S", R: []string{"TA"}, Action: " $$ = $1 "}}
 		add(fmt.Sprintf("comment-in-action-%d", ai), cs)
 	}
+	// string aliases with text that means something to the target languages
+	for ai, al := range []string{"*/", "/*", "//", "`", "${x}", "%d", "a b", "<T>"} {
+		as := gram.Parse("S", nil, "S: S TA TB | TA")
+		as.Tokens = []gram.TokDecl{{Name: "TA", Alias: al}, {Name: "TB", Num: 300, Alias: al + al}}
+		add(fmt.Sprintf("alias-%d", ai), as)
+	}
 	// directives yaccgo does not know (bison's %expect, %nterm, %empty ...): refusing them is fine, but a file
 	// that is written must compile
 	for _, dir := range []string{"%expect 1", "%nterm TX", "%define api.pure", "%foo"} {
